@@ -3,7 +3,7 @@
    writes no protected and no dead array / dict; the frozen states; what the model's Freeze guarantees. *)
 From Coq Require Import String Lia.
 From PlzV Require Import Base.Harness Gen.AspTables Model.C16_Syntax Model.C16_Ops Model.C16_Prim Model.C16_Eval.
-From PlzV Require Import Proof.C17_Inv Proof.C17_Ops Proof.C17_Frame3.
+From PlzV Require Import Base.StrFacts Proof.C17_Inv Proof.C17_Ops Proof.C17_Frame3.
 Local Open Scope list_scope.
 Local Open Scope nat_scope.
 
@@ -16,37 +16,37 @@ Proof.
 Qed.
 
 Section Main.
-Variables (ca cd : nat -> mode) (pf ls : nat -> bool) (cs : list value).
+Variables (ca cd : nat -> mode) (pf ls : nat -> bool) (cs : list value) (defs : list (str * prog)).
 Notation vok := (C17_Inv.vok ca cd pf).
 Notation env_ok := (C17_Inv.env_ok ca cd pf).
-Notation Inv := (C17_Inv.Inv ca cd pf ls cs).
+Notation Inv := (C17_Inv.Inv ca cd pf ls cs defs).
 Notation frame := (C17_Inv.frame ca cd ls).
 Notation sok_p := (C17_Inv.sok_p ca cd pf cs).
 Notation sok_s := (C17_Inv.sok_s ca cd pf cs).
 
 (* ---- one block, one statement ---- *)
 Theorem frame_block : forall fuel p st r st', Inv st -> sok_p p = true ->
-  exec_block Asp [] fuel p st = Ok (r, st') -> Inv st' /\ frame st st'.
+  exec_block Asp defs fuel p st = Ok (r, st') -> Inv st' /\ frame st st'.
 Proof.
-  intros fuel p st r st' HI Hp H. pose proof (sp_B _ _ _ _ _ _ (all_specs ca cd pf ls cs fuel) p st Hp HI) as Hs.
+  intros fuel p st r st' HI Hp H. pose proof (sp_B _ _ _ _ _ _ _ (all_specs ca cd pf ls cs defs fuel) p st Hp HI) as Hs.
   rewrite H in Hs. cbn in Hs. destruct Hs as (I1 & F1 & _). auto.
 Qed.
 
 Theorem frame_stmt : forall fuel s0 st r st', Inv st -> sok_s s0 = true ->
-  exec_stmt Asp [] fuel s0 st = Ok (r, st') -> Inv st' /\ frame st st'.
+  exec_stmt Asp defs fuel s0 st = Ok (r, st') -> Inv st' /\ frame st st'.
 Proof.
-  intros fuel s0 st r st' HI Hp H. pose proof (sp_S _ _ _ _ _ _ (all_specs ca cd pf ls cs fuel) s0 st Hp HI) as Hs.
+  intros fuel s0 st r st' HI Hp H. pose proof (sp_S _ _ _ _ _ _ _ (all_specs ca cd pf ls cs defs fuel) s0 st Hp HI) as Hs.
   rewrite H in Hs. cbn in Hs. destruct Hs as (I1 & F1 & _). auto.
 Qed.
 
 (* ---- the statements of one BUILD file (what a failing statement did before it failed stays done) ---- *)
 Theorem frame_top : forall fuel p st e oof st', Inv st -> sok_p p = true ->
-  exec_top Asp [] fuel p st = (e, oof, st') -> Inv st' /\ frame st st'.
+  exec_top Asp defs fuel p st = (e, oof, st') -> Inv st' /\ frame st st'.
 Proof.
   intros fuel. induction p as [|s0 r IH]; intros st e oof st' HI Hp H; cbn [exec_top] in H.
   - injection H as _ _ <-. split; [auto|apply frame_refl].
   - unfold C17_Inv.sok_p in Hp. cbn [forallb] in Hp. apply andb_prop in Hp. destruct Hp as [H0 Hr].
-    destruct (exec_stmt Asp [] fuel s0 st) as [[r0 st1]|k|] eqn:E.
+    destruct (exec_stmt Asp defs fuel s0 st) as [[r0 st1]|k|] eqn:E.
     + destruct (frame_stmt _ _ _ _ _ HI H0 E) as [I1 F1]. destruct r0.
       * destruct (IH _ _ _ _ I1 Hr H) as [I2 F2]. split; [auto|eapply frame_trans; eauto].
       * injection H as _ _ <-. auto.
@@ -74,29 +74,29 @@ Qed.
 Theorem frame_builds : forall fuel builds st outs st', Inv st ->
   (forall j, length (fscopes st) <= j -> ls j = true) ->
   Forall (fun p => sok_p p = true) builds ->
-  run_builds Asp [] fuel builds st = (outs, st') -> Inv st' /\ frame st st'.
+  run_builds Asp defs fuel builds st = (outs, st') -> Inv st' /\ frame st st'.
 Proof.
   intros fuel. induction builds as [|p r IH]; intros st outs st' HI Hlive Hb H; cbn [run_builds] in H.
   - injection H as _ <-. split; [auto|apply frame_refl].
   - inversion Hb as [|? ? Hp Hr]; subst.
     destruct (new_scope_good st HI (Hlive _ (Nat.le_refl _))) as [I1 F1].
-    destruct (exec_top Asp [] fuel p _) as [[e oof] st2] eqn:E.
+    destruct (exec_top Asp defs fuel p _) as [[e oof] st2] eqn:E.
     destruct (frame_top _ _ _ _ _ _ I1 Hp E) as [I2 F2].
     assert (F02 : frame st st2) by (eapply frame_trans; eauto).
     assert (Hlive2 : forall j, length (fscopes st2) <= j -> ls j = true).
     { intros j Hj. apply Hlive. pose proof (f_fslen _ _ _ _ _ F02). lia. }
     assert (I2' : Inv (set_locals [] st2)) by (apply set_locals_inv; auto).
     assert (F2' : frame st (set_locals [] st2)) by (eapply frame_trans; [exact F02|apply set_locals_frame]).
-    assert (Hgen : forall stx, (stx = st2 \/ stx = set_locals [] st2) -> forall o r0, run_builds Asp [] fuel r stx = (o, r0) -> Inv r0 /\ frame st r0).
+    assert (Hgen : forall stx, (stx = st2 \/ stx = set_locals [] st2) -> forall o r0, run_builds Asp defs fuel r stx = (o, r0) -> Inv r0 /\ frame st r0).
     { intros stx [-> | ->] o r0 Hrun.
       - destruct (IH _ _ _ I2 Hlive2 Hr Hrun) as [I3 F3]. split; [exact I3|exact (frame_trans ca cd ls _ _ _ F02 F3)].
       - destruct (IH _ _ _ I2' Hlive2 Hr Hrun) as [I3 F3]. split; [exact I3|exact (frame_trans ca cd ls _ _ _ F2' F3)]. }
     destruct e as [k|]; [|destruct oof].
-    + destruct k; destruct (run_builds Asp [] fuel r (set_locals [] st2)) as [rest st3] eqn:Er; injection H as _ <-;
+    + destruct k; destruct (run_builds Asp defs fuel r (set_locals [] st2)) as [rest st3] eqn:Er; injection H as _ <-;
         (eapply Hgen; [right; reflexivity|exact Er]).
-    + destruct (run_builds Asp [] fuel r (set_locals [] st2)) as [rest st3] eqn:Er; injection H as _ <-.
+    + destruct (run_builds Asp defs fuel r (set_locals [] st2)) as [rest st3] eqn:Er; injection H as _ <-.
       eapply Hgen; [right; reflexivity|exact Er].
-    + destruct (run_builds Asp [] fuel r st2) as [rest st3] eqn:Er; injection H as _ <-.
+    + destruct (run_builds Asp defs fuel r st2) as [rest st3] eqn:Er; injection H as _ <-.
       eapply Hgen; [left; reflexivity|exact Er].
 Qed.
 
@@ -109,8 +109,12 @@ End Main.
 Definition cls_prefix (n : nat) (dead : list nat) : nat -> mode :=
   fun a => if existsb (Nat.eqb a) dead then Dead else if a <? n then Prot else Free.
 
-Definition frozen_state (dead_a dead_d : list nat) (st : state) : Prop :=
-  Inv (cls_prefix (length (arrays st)) dead_a) (cls_prefix (length (dicts st)) dead_d) (fun _ => false) (fun _ => true) (consts st) st.
+Definition frozen_state (defs : list (str * prog)) (dead_a dead_d : list nat) (st : state) : Prop :=
+  Inv (cls_prefix (length (arrays st)) dead_a) (cls_prefix (length (dicts st)) dead_d) (fun _ => false) (fun _ => true) (consts st) defs st.
+
+(* the invariant, with the classification of st0, on a later state *)
+Definition frozen_inv_after (defs : list (str * prog)) (dead_a dead_d : list nat) (st0 st' : state) : Prop :=
+  Inv (cls_prefix (length (arrays st0)) dead_a) (cls_prefix (length (dicts st0)) dead_d) (fun _ => false) (fun _ => true) (consts st0) defs st'.
 
 Definition pkg_ok (dead_a dead_d : list nat) (st : state) (p : prog) : Prop :=
   sok_p (cls_prefix (length (arrays st)) dead_a) (cls_prefix (length (dicts st)) dead_d) (fun _ => false) (consts st) p = true.
@@ -123,18 +127,18 @@ Qed.
 
 (* THE FRAME THEOREM for packages: whatever BUILD files are interpreted, in whatever number, on an interpreter whose
    state is frozen, no array and no dict that existed before is changed; the state stays frozen in the same sense. *)
-Theorem packages_write_nothing_imported : forall dead_a dead_d st0 fuel builds outs st',
-  frozen_state dead_a dead_d st0 ->
+Theorem packages_write_nothing_imported : forall defs dead_a dead_d st0 fuel builds outs st',
+  frozen_state defs dead_a dead_d st0 ->
   Forall (pkg_ok dead_a dead_d st0) builds ->
-  run_builds Asp [] fuel builds st0 = (outs, st') ->
+  run_builds Asp defs fuel builds st0 = (outs, st') ->
   (forall a, a < length (arrays st0) -> arr_of st' a = arr_of st0 a)
   /\ (forall i, i < length (dicts st0) -> dict_of st' i = dict_of st0 i)
   /\ (exists X, funcs st' = funcs st0 ++ X)
   /\ subcache st' = subcache st0
-  /\ Inv (cls_prefix (length (arrays st0)) dead_a) (cls_prefix (length (dicts st0)) dead_d) (fun _ => false) (fun _ => true) (consts st0) st'.
+  /\ frozen_inv_after defs dead_a dead_d st0 st'.
 Proof.
-  intros dead_a dead_d st0 fuel builds outs st' HI Hb H.
-  destruct (frame_builds _ _ _ _ _ fuel builds st0 outs st' HI (fun _ _ => eq_refl) Hb H) as [I1 F1].
+  intros defs dead_a dead_d st0 fuel builds outs st' HI Hb H. unfold frozen_inv_after.
+  destruct (frame_builds _ _ _ _ _ _ fuel builds st0 outs st' HI (fun _ _ => eq_refl) Hb H) as [I1 F1].
   split; [|split; [|split; [|split]]]; auto.
   - intros a Ha. apply (f_arr _ _ _ _ _ F1). apply cls_prefix_not_free. exact Ha.
   - intros i Hi. apply (f_dict _ _ _ _ _ F1). apply cls_prefix_not_free. exact Hi.
@@ -191,20 +195,21 @@ Qed.
 
 (* every value that is closed in the frozen state (refers to nothing allocated later - true of everything a
    subinclude exported) renders the same after ANY packages were interpreted as before *)
-Theorem imported_values_unchanged : forall dead_a dead_d st0 fuel builds outs st' rfuel v,
-  frozen_state dead_a dead_d st0 ->
+Theorem imported_values_unchanged : forall defs dead_a dead_d st0 fuel builds outs st' rfuel v,
+  frozen_state defs dead_a dead_d st0 ->
   Forall (pkg_ok dead_a dead_d st0) builds ->
-  run_builds Asp [] fuel builds st0 = (outs, st') ->
+  run_builds Asp defs fuel builds st0 = (outs, st') ->
   closedb rfuel st0 (length (arrays st0)) (length (dicts st0)) (length (funcs st0)) v = true ->
   render Asp rfuel st' v = render Asp rfuel st0 v.
 Proof.
-  intros dead_a dead_d st0 fuel builds outs st' rfuel v HI Hb H Hc.
-  destruct (packages_write_nothing_imported _ _ _ _ _ _ _ HI Hb H) as (Ha & Hd & [X Hf] & _).
+  intros defs dead_a dead_d st0 fuel builds outs st' rfuel v HI Hb H Hc.
+  destruct (packages_write_nothing_imported _ _ _ _ _ _ _ _ HI Hb H) as (Ha & Hd & [X Hf] & _).
   eapply render_same; eauto. intros i Hi. rewrite Hf. apply app_nth1. exact Hi.
 Qed.
 
 (* ================================================================ deep_frozen, and what Freeze gives *)
-(* every list / dict reachable from v is a frozen wrapper, and the lists have no spare capacity *)
+(* every list / dict reachable from v is a frozen wrapper.  (Before /repo 7aeabfa the lists also had to have no
+   spare capacity: FROZEN + [x] appended into it.  List + now always allocates, so capacity no longer matters.) *)
 Inductive deep_frozen (st : state) : value -> Prop :=
 | DF_int : forall z, deep_frozen st (VInt z)
 | DF_str : forall x, deep_frozen st (VStr x)
@@ -214,47 +219,103 @@ Inductive deep_frozen (st : state) : value -> Prop :=
 | DF_range : forall a b c, deep_frozen st (VRange a b c)
 | DF_func : forall i, deep_frozen st (VFunc i)
 | DF_builtin : forall n, deep_frozen st (VBuiltin n)
-| DF_list : forall sl, s_cap sl <= s_len sl -> Forall (deep_frozen st) (list_items Asp st sl) -> deep_frozen st (VFrozenList sl)
+| DF_list : forall sl, Forall (deep_frozen st) (list_items Asp st sl) -> deep_frozen st (VFrozenList sl)
 | DF_dict : forall i, Forall (fun kv => deep_frozen st (snd kv)) (dict_of st i) -> deep_frozen st (VFrozenDict i).
 
 (* a deep-frozen value satisfies the local condition of the invariant under every classification without dead objects *)
 Lemma deep_frozen_vok : forall st na nd v, deep_frozen st v -> vok (cls_prefix na []) (cls_prefix nd []) (fun _ => false) v.
 Proof.
   intros st na nd v H. destruct H; try reflexivity.
-  - unfold vok, vokb, cls_prefix. cbn [existsb]. destruct (s_arr sl <? na); [|reflexivity]. apply Nat.leb_le. exact H.
+  - unfold vok, vokb, cls_prefix. cbn [existsb]. destruct (s_arr sl <? na); reflexivity.
   - unfold vok, vokb, cls_prefix. cbn [existsb]. destruct (i <? nd); reflexivity.
 Qed.
 
-(* the four state-side finding classes are exactly the ways an exported value fails to be deep-frozen:
-   a nested list stays VList (Freeze is shallow), a filtered comprehension has spare capacity, and the shared
-   constants are VList values in `consts` / DConst defaults. *)
+(* the state-side finding classes are exactly the ways an exported value fails to be deep-frozen / the state fails
+   to be frozen: a nested list stays VList (pyList.Freeze is shallow), and the shared constants are VList values in
+   `consts` (mentioned by a function body) / DConst defaults. *)
 Definition scalar (v : value) : Prop :=
   match v with VInt _ | VStr _ | VBool _ | VNone => True | _ => False end.
 
 Lemma scalar_deep_frozen : forall st v, scalar v -> deep_frozen st v.
 Proof. intros st v H. destruct v; try contradiction; constructor. Qed.
 
-(* Freeze of a list of scalars without spare capacity (every list literal / unfiltered comprehension of scalars) *)
+(* Freeze of a list of scalars (nesting depth 1) *)
 Theorem freeze_flat_list_deep_frozen : forall fuel sl st,
-  s_cap sl <= s_len sl -> Forall scalar (list_items Asp st sl) ->
-  freeze Asp (S fuel) (VList sl) st = Ok (VFrozenList sl, st) /\ deep_frozen st (VFrozenList sl).
+  Forall scalar (list_items Asp st sl) ->
+  freeze (S fuel) (VList sl) st = Ok (VFrozenList sl, st) /\ deep_frozen st (VFrozenList sl).
 Proof.
-  intros fuel sl st Hc Hs. split; [reflexivity|]. constructor; auto.
+  intros fuel sl st Hs. split; [reflexivity|]. constructor.
   eapply Forall_impl; [|exact Hs]. intros v Hv. apply scalar_deep_frozen. exact Hv.
 Qed.
 
-(* ... and the two ways the same Freeze does NOT give a deep-frozen value *)
+(* ... and the way the same Freeze does NOT give a deep-frozen value: it is shallow *)
 Theorem freeze_nested_not_deep_frozen : forall fuel sl st inner,
   List.In (VList inner) (list_items Asp st sl) ->
-  freeze Asp (S fuel) (VList sl) st = Ok (VFrozenList sl, st) /\ ~ deep_frozen st (VFrozenList sl).
+  freeze (S fuel) (VList sl) st = Ok (VFrozenList sl, st) /\ ~ deep_frozen st (VFrozenList sl).
 Proof.
-  intros fuel sl st inner Hin. split; [reflexivity|]. intros H. inversion H as [| | | | | | | |? _ Hall|]; subst.
+  intros fuel sl st inner Hin. split; [reflexivity|]. intros H. inversion H as [| | | | | | | |? Hall|]; subst.
   rewrite Forall_forall in Hall. specialize (Hall _ Hin). inversion Hall.
 Qed.
 
-Theorem freeze_spare_not_deep_frozen : forall fuel sl st,
-  s_len sl < s_cap sl ->
-  freeze Asp (S fuel) (VList sl) st = Ok (VFrozenList sl, st) /\ ~ deep_frozen st (VFrozenList sl).
+(* ================================================================ an executable test of frozen_state *)
+Definition envb (ca cd : nat -> mode) (e : env) : bool := forallb (fun kv => vokb ca cd (fun _ => false) (snd kv)) e.
+
+Definition frozen_stateb (defs : list (str * prog)) (dead_a dead_d : list nat) (st : state) : bool :=
+  let ca := cls_prefix (length (arrays st)) dead_a in
+  let cd := cls_prefix (length (dicts st)) dead_d in
+  forallb (fun lp => match assoc_get (fst lp) (subcache st) with Some _ => true | None => false end) defs &&
+  forallb (fun a => a <? length (arrays st)) dead_a &&
+  forallb (fun i => i <? length (dicts st)) dead_d &&
+  forallb (fun a => match ca a with Dead => true | _ => forallb (vokb ca cd (fun _ => false)) (arr_of st a) end) (seq 0 (length (arrays st))) &&
+  forallb (fun i => match cd i with Dead => true | _ => envb ca cd (dict_of st i) end) (seq 0 (length (dicts st))) &&
+  forallb (envb ca cd) (fscopes st) && forallb (envb ca cd) (locals st) && forallb (fun le => envb ca cd (snd le)) (subcache st) &&
+  forallb (fokb ca cd (fun _ => false) (fun _ => true) (consts st)) (funcs st).
+
+Lemma envb_ok : forall ca cd e, envb ca cd e = true -> env_ok ca cd (fun _ => false) e.
+Proof. intros ca cd e H. unfold envb in H. rewrite forallb_forall in H. apply Forall_forall. intros kv Hin. apply H. exact Hin. Qed.
+
+Lemma cls_prefix_range : forall n dead a, forallb (fun a => a <? n) dead = true -> cls_prefix n dead a <> Free -> a < n.
 Proof.
-  intros fuel sl st Hlt. split; [reflexivity|]. intros H. inversion H as [| | | | | | | |? Hc _|]; subst. lia.
+  intros n dead a Hd Hc. unfold cls_prefix in Hc. destruct (existsb (Nat.eqb a) dead) eqn:E.
+  - apply existsb_exists in E. destruct E as (x & Hin & Hx). apply Nat.eqb_eq in Hx. subst x.
+    rewrite forallb_forall in Hd. apply Nat.ltb_lt. apply Hd. exact Hin.
+  - destruct (a <? n) eqn:E2; [apply Nat.ltb_lt; exact E2|contradiction].
+Qed.
+
+Lemma find_def_cached : forall (defs : list (str * prog)) sc,
+  forallb (fun lp => match assoc_get (fst lp) sc with Some _ => true | None => false end) defs = true ->
+  forall label, @assoc_get env label sc = None -> find_def defs label = None.
+Proof.
+  intros defs sc H label Hl. unfold find_def. induction defs as [|[k p] r IH]; [reflexivity|].
+  cbn [forallb fst] in H. apply andb_prop in H. destruct H as [Hk Hr].
+  destruct (str_eqb label k) eqn:E.
+  - apply StrFacts.str_eqb_eq in E. subst k. rewrite Hl in Hk. discriminate Hk.
+  - apply IH. exact Hr.
+Qed.
+
+Theorem frozen_stateb_sound : forall defs dead_a dead_d st, frozen_stateb defs dead_a dead_d st = true -> frozen_state defs dead_a dead_d st.
+Proof.
+  intros defs da dd st H. unfold frozen_stateb in H. cbv zeta in H.
+  repeat match type of H with (_ && _)%bool = true => let H1 := fresh "H" in apply andb_prop in H; destruct H as [H H1] end.
+  unfold frozen_state. constructor.
+  - intros a Ha. eapply cls_prefix_range; eauto.
+  - intros i Hi. eapply cls_prefix_range; eauto.
+  - intros i Hi. discriminate Hi.
+  - intros a Ha. destruct (Nat.lt_ge_cases a (length (arrays st))) as [Hlt|Hge].
+    + rewrite forallb_forall in H5. specialize (H5 a). rewrite in_seq in H5. specialize (H5 (conj (Nat.le_0_l _) Hlt)).
+      destruct (cls_prefix (length (arrays st)) da a) eqn:E; try contradiction;
+        (apply Forall_forall; intros v Hv; rewrite forallb_forall in H5; apply H5; exact Hv).
+    + unfold arr_of. rewrite nth_overflow by exact Hge. constructor.
+  - intros i Hi. destruct (Nat.lt_ge_cases i (length (dicts st))) as [Hlt|Hge].
+    + rewrite forallb_forall in H4. specialize (H4 i). rewrite in_seq in H4. specialize (H4 (conj (Nat.le_0_l _) Hlt)).
+      destruct (cls_prefix (length (dicts st)) dd i) eqn:E; try contradiction; apply envb_ok; exact H4.
+    + unfold dict_of. rewrite nth_overflow by exact Hge. constructor.
+  - intros j _. apply (Forall_nth (env_ok _ _ _)); [|constructor]. apply Forall_forall. intros e He. apply envb_ok.
+    rewrite forallb_forall in H3. apply H3. exact He.
+  - reflexivity.
+  - apply Forall_forall. intros e He. apply envb_ok. rewrite forallb_forall in H2. apply H2. exact He.
+  - apply Forall_forall. intros e He. apply envb_ok. rewrite forallb_forall in H1. apply (H1 e He).
+  - intros i _ Hlt. rewrite forallb_forall in H0. apply H0. apply nth_In. exact Hlt.
+  - reflexivity.
+  - apply find_def_cached. exact H.
 Qed.
